@@ -782,6 +782,7 @@ package template
 //@   requires !isnil(e.actionNodeEdits)
 //@   ensures recorded: haskeym(e.actionNodeEdits, n)
 //@   ensures others: forallref(p, p != n ==> haskeym(e.actionNodeEdits, p) == old(haskeym(e.actionNodeEdits, p)))
+//@   ensures othermaps: onlyobjects("map[int]opaque#dom map[int]opaque#val", e.actionNodeEdits)
 
 //@ func (e *escaper) escapeBranch(c context, n *parse.BranchNode, nodeName string) (r context)
 //@   serves C05 C01
@@ -805,3 +806,33 @@ package template
 //@   ensures derivedok: forallkey(w, haskeym(e.derived, w) ==> !isnil(e.derived[w]))
 //@   ensures editkeys: forallref(p, haskeym(e.actionNodeEdits, p) || haskeym(e.templateNodeEdits, p) || haskeym(e.textNodeEdits, p) ==> !isnil(p))
 //@   ensures escmaps: !isnil(e.output) && !isnil(e.derived) && !isnil(e.called)
+
+//@ func (e *escaper) editTemplateNode(n *parse.TemplateNode, callee string) ()
+//@   serves C06 C08
+//@   option embedded nameSpace.esc
+//@   option modifies map[int]opaque#dom map[int]opaque#val
+//@   requires !isnil(e.templateNodeEdits)
+//@   ensures recorded: haskeym(e.templateNodeEdits, n)
+//@   ensures others: forallref(p, p != n ==> haskeym(e.templateNodeEdits, p) == old(haskeym(e.templateNodeEdits, p)))
+//@   ensures othermaps: onlyobjects("map[int]opaque#dom map[int]opaque#val", e.templateNodeEdits)
+
+//@ func (e *escaper) editTextNode(n *parse.TextNode, text []byte) ()
+//@   serves C06 C08
+//@   option embedded nameSpace.esc
+//@   option modifies map[int]opaque#dom map[int]opaque#val
+//@   requires !isnil(e.textNodeEdits)
+//@   ensures recorded: haskeym(e.textNodeEdits, n)
+//@   ensures others: forallref(p, p != n ==> haskeym(e.textNodeEdits, p) == old(haskeym(e.textNodeEdits, p)))
+//@   ensures othermaps: onlyobjects("map[int]opaque#dom map[int]opaque#val", e.textNodeEdits)
+
+//@ func (e *escaper) escapeListConditionally(c context, n *parse.ListNode, filter func(*escaper, context) bool) (r context, ok bool)
+//@   serves C05 C06 C08
+//@   option embedded nameSpace.esc
+//@   option allocates
+//@   option modifies @ANALYSISMAPS @DERIVEDTREES
+//@   requires escmaps: !isnil(e.output) && !isnil(e.derived) && !isnil(e.called) && !isnil(e.actionNodeEdits) && !isnil(e.templateNodeEdits) && !isnil(e.textNodeEdits)
+//@   ensures named: identical(r, namedlike(r, "esclist", c, n))
+//@   ensures rejected: !ok ==> onlyfresh("map[seq]opaque#dom map[seq]opaque#val map[seq]ref:TT_Template#dom map[seq]ref:TT_Template#val map[seq]bool#dom map[seq]bool#val map[int]opaque#dom map[int]opaque#val")
+//@   ensures treesfresh: onlyfresh("TT_Template.Tree parse_Tree.Name#b parse_Tree.Name#o parse_Tree.Name#l")
+//@   loop 1
+//@     invariant copyintofresh: onlyfresh("map[seq]opaque#dom map[seq]opaque#val")
